@@ -14,7 +14,7 @@ EXPLANATION = (
     "decrypter exactly once and no body byte does, and the path consumes the same bytes as the plain reader (frame rules of C02); "
     "(3) encrypted and plain readers hand the same quantity to the body decoder."
 )
-TWIN_FLOOR = 0
+TWIN_FLOOR = 60
 
 WRITER_RE = re.compile(r"^(tokio_|astd_)?write_(encrypted|unencrypted)_(client|server)$")
 
@@ -32,15 +32,22 @@ def header_abstract(n, enc_names):
                 return True  # v[i] = ... header patching
         return False
 
+    def has_body_write(st):
+        return any(H.tag(y) == "mcall" and y[1] == "write_into_vec" for y in H.walk(st))
+
     def go(x):
         if H.tag(x) == "block":
             stmts = []
+            after_body = False
             for st in x[1]:
-                if is_header_stmt(st):
+                if after_body or is_header_stmt(st):
                     if not stmts or stmts[-1] != ["HEADER"]:
                         stmts.append(["HEADER"])
                 else:
                     stmts.append(go(st))
+                if has_body_write(st) and any(H.tag(y) == "path" and "_get_" in y[1] for z in x[1] for y in H.walk(z)):
+                    # per-message override: everything between the body write and the final write_all patches the header
+                    after_body = True
             tail = go(x[2]) if x[2] is not None else None
             return ["block", stmts, tail]
         if isinstance(x, list):
